@@ -303,6 +303,35 @@ def rule_R11_enumerate(text: str, counts: dict) -> str:
         counts["R11"] = counts.get("R11", 0) + 1
 
 
+def rule_R12_for_ref(text: str, counts: dict) -> str:
+    """R12: `for X in &E {` -> `for vidx__N in 0..E.len() { let X = &E[vidx__N];` where E is a plain place
+    expression (identifiers, `self`, `.`) naming a Vec or slice: same elements by reference in the same
+    order."""
+    n = 0
+    while True:
+        toks = rustlex.lex(text)
+        sig = [i for i, t in enumerate(toks) if t.kind not in ("ws", "comment", "doc")]
+        hit = None
+        for p, i in enumerate(sig):
+            if toks[i].kind == "ident" and toks[i].text == "for" and p + 4 < len(sig):
+                if toks[sig[p + 1]].kind == "ident" and toks[sig[p + 2]].text == "in" and toks[sig[p + 3]].text == "&":
+                    q = p + 4
+                    expr = []
+                    while q < len(sig) and (toks[sig[q]].kind == "ident" or toks[sig[q]].text == "."):
+                        expr.append(toks[sig[q]].text)
+                        q += 1
+                    if expr and expr[-1] != "." and expr[0] != "mut" and q < len(sig) and toks[sig[q]].text == "{":
+                        hit = (toks[i].start, toks[sig[q]].end, toks[sig[p + 1]].text, "".join(expr))
+                        break
+        if not hit:
+            return text
+        a, b, xvar, e = hit
+        n += 1
+        nl = text[a:b].count("\n")
+        text = text[:a] + f"for vidx__{n} in 0..{e}.len() {{ let {xvar} = &{e}[vidx__{n}];" + "\n" * nl + text[b:]
+        counts["R12"] = counts.get("R12", 0) + 1
+
+
 def keep_attr(a: str) -> bool:
     return False
 
@@ -554,6 +583,7 @@ class UnitBuilder:
             text = rule_R7_format(text, self.counts)
             text = rule_R10_mut_self(text, self.counts)
             text = rule_R11_enumerate(text, self.counts)
+            text = rule_R12_for_ref(text, self.counts)
         for rule, frm, to in self.spec.rewrites:
             text = rule_R3_token_replace(text, frm, to, rule, self.counts)
         # R4 on the full item text (attributes before decl were already excluded by using it.decl)
